@@ -80,6 +80,16 @@ static void printHashMode(u8_t mode)
     strlog(hm, hash);
 }
 /*
+modeNumber:解析--cmode/--hmode的数字参数, 超出范围的数字(atoi会回绕到合法值)返回-1
+arg:参数
+return:解析出的数字
+*/
+static int modeNumber(const char *arg)
+{
+    long v = strtol(arg, NULL, 10);
+    return (v < 0 || v > 255) ? -1 : (int)v;
+}
+/*
 parseOpts:解析选项
 c:选项字符
 res:参数包指针
@@ -164,12 +174,12 @@ bool parseOpts(char c, vpak_t *res)
     case 1:
         if (res->ctype == -1)
         {
-            if (!check_ctype(atoi(optarg)))
+            if (!check_ctype(modeNumber(optarg)))
             {
                 strlog("Error :", "Wrong ctype");
                 return false;
             }
-            res->ctype = atoi(optarg);
+            res->ctype = modeNumber(optarg);
             printCryptMode(res->ctype);
         }
         else
@@ -181,12 +191,12 @@ bool parseOpts(char c, vpak_t *res)
     case 2:
         if (res->htype == -1)
         {
-            if (!check_htype(atoi(optarg)))
+            if (!check_htype(modeNumber(optarg)))
             {
                 strlog("Error :", "Wrong htype");
                 return false;
             }
-            res->htype = atoi(optarg);
+            res->htype = modeNumber(optarg);
             printHashMode(res->htype);
         }
         else
